@@ -631,3 +631,171 @@ Qed.
 (* the same schedule is not a path of the faithful model: after the re-read In does not park *)
 Lemma recheck_witness_not_faithful : run true false recheck_witness (init [[1]; [2]; [3]] [[9]]) = None.
 Proof. vm_compute. reflexivity. Qed.
+
+(* ---- trace validation: a trace the replay function accepts is a path of the model ---- *)
+From Coq Require Import Lia.
+Lemma run_app rc tm a : forall b s,
+  run rc tm (a ++ b) s = match run rc tm a s with Some s' => run rc tm b s' | None => None end.
+Proof.
+  induction a as [|l a IH]; intros b s; cbn [run app]; [reflexivity|].
+  destruct (step_fn rc tm l s); [apply IH|reflexivity].
+Qed.
+
+Lemma run_reach tm s0 ls : forall s s', reach tm s0 s -> run true tm ls s = Some s' -> reach tm s0 s'.
+Proof.
+  induction ls as [|l ls IH]; intros s s' R E; cbn [run] in E.
+  - injection E as <-. exact R.
+  - destruct (step_fn true tm l s) as [s1|] eqn:E1; [|discriminate].
+    eapply IH; [|exact E]. eapply reach_step; eassumption.
+Qed.
+
+Lemma rv_step_path tm e s s' : rv_step tm e s = Some s' ->
+  exists ls, rv_labels e s = Some ls /\ run true tm ls s = Some s'.
+Proof.
+  unfold rv_step. destruct (rv_labels e s) as [ls|]; [|discriminate]. intro E. exists ls. split; [reflexivity|exact E].
+Qed.
+
+Lemma rv_step_reach tm s0 e s s' : reach tm s0 s -> rv_step tm e s = Some s' -> reach tm s0 s'.
+Proof. intros R E. destruct (rv_step_path _ _ _ _ E) as (ls & _ & E'). eapply run_reach; eassumption. Qed.
+
+(* an accepted trace stands for a label sequence that the model runs to the same state *)
+Theorem rv_run_path tm es : forall i s s', rv_run tm es i s = RvOk s' ->
+  exists ls, rv_path tm es s = Some ls /\ run true tm ls s = Some s'.
+Proof.
+  induction es as [|e es IH]; intros i s s' E; cbn [rv_run rv_path] in *.
+  - injection E as <-. exists []. split; reflexivity.
+  - destruct (rv_step tm e s) as [s1|] eqn:E1; [|discriminate].
+    destruct (rv_step_path _ _ _ _ E1) as (ls & L & R1). rewrite L, R1.
+    destruct (IH _ _ _ E) as (ls' & P & R2). rewrite P. exists (ls ++ ls'). split; [reflexivity|].
+    rewrite run_app, R1. exact R2.
+Qed.
+
+Theorem rv_run_reach tm s0 es : forall i s s', reach tm s0 s -> rv_run tm es i s = RvOk s' -> reach tm s0 s'.
+Proof.
+  intros i s s' R E. destruct (rv_run_path _ _ _ _ _ E) as (ls & _ & E'). eapply run_reach; eassumption.
+Qed.
+
+(* acceptance is prefix-closed, and a rejected trace was accepted up to the offending event *)
+Lemma rv_run_prefix tm es : forall k i s s', rv_run tm es i s = RvOk s' ->
+  exists sk, rv_run tm (firstn k es) i s = RvOk sk.
+Proof.
+  induction es as [|e es IH]; intros k i s s' E.
+  - rewrite firstn_nil. exists s. reflexivity.
+  - destruct k as [|k]; [exists s; reflexivity|]. cbn [rv_run firstn] in *.
+    destruct (rv_step tm e s) as [s1|]; [|discriminate]. eapply IH; exact E.
+Qed.
+
+Lemma rv_run_bad_prefix tm es : forall i s j sb, rv_run tm es i s = RvBad j sb ->
+  (i <= j)%nat /\ rv_run tm (firstn (j - i) es) i s = RvOk sb.
+Proof.
+  induction es as [|e es IH]; intros i s j sb E; cbn [rv_run] in E; [discriminate|].
+  destruct (rv_step tm e s) as [s1|] eqn:E1.
+  - destruct (IH _ _ _ _ E) as [Hle E']. split; [lia|].
+    replace (j - i)%nat with (S (j - S i))%nat.
+    + cbn [firstn rv_run]. rewrite E1. exact E'.
+    + clear - Hle. lia.
+  - injection E as <- <-. split; [apply Nat.le_refl|]. rewrite Nat.sub_diag. reflexivity.
+Qed.
+
+(* the two worlds connected: every state along an accepted trace of the real relay -- the
+   state after each of its prefixes -- is reachable, hence satisfies the invariants *)
+Theorem relay_trace_sound tm cs ss es s : rv_run tm es O (init cs ss) = RvOk s ->
+  (exists ls, rv_path tm es (init cs ss) = Some ls /\ run true tm ls (init cs ss) = Some s) /\
+  forall k, exists sk, rv_run tm (firstn k es) O (init cs ss) = RvOk sk /\ reach tm (init cs ss) sk /\
+    conserved_I (concat cs) sk /\ conserved_O (concat ss) sk /\
+    lock_discipline sk /\ handshaking_iff_worker sk /\ parked_only_while_handshaking sk /\ status_read_still_current sk.
+Proof.
+  intro E. split; [eapply rv_run_path; exact E|]. intro k.
+  destruct (rv_run_prefix _ _ k _ _ _ E) as (sk & Ek). exists sk. split; [exact Ek|].
+  assert (R : reach tm (init cs ss) sk) by (eapply rv_run_reach; [apply reach_refl|exact Ek]).
+  split; [exact R|]. destruct (relay_conserved _ _ _ _ R) as [A B]. split; [exact A|]. split; [exact B|].
+  apply (relay_aux _ _ _ _ R).
+Qed.
+
+Lemma rv_run_bad_event tm es : forall i s j sb, rv_run tm es i s = RvBad j sb ->
+  exists e, nth_error es (j - i) = Some e /\ rv_step tm e sb = None.
+Proof.
+  induction es as [|e es IH]; intros i s j sb E; cbn [rv_run] in E; [discriminate|].
+  destruct (rv_step tm e s) as [s1|] eqn:E1.
+  - destruct (rv_run_bad_prefix _ _ _ _ _ _ E) as [Hle _]. destruct (IH _ _ _ _ E) as (e' & N & X).
+    exists e'. split; [|exact X].
+    replace (j - i)%nat with (S (j - S i))%nat; [exact N|].
+    clear - Hle. lia.
+  - injection E as <- <-. exists e. rewrite Nat.sub_diag. split; [reflexivity|exact E1].
+Qed.
+
+(* a rejected trace: everything in front of the offending event is a path of the model and
+   the state the model is in at that point satisfies the invariants; the disagreement is
+   about that one event *)
+Theorem relay_trace_rejected tm cs ss es j sb : rv_run tm es O (init cs ss) = RvBad j sb ->
+  rv_run tm (firstn j es) O (init cs ss) = RvOk sb /\ reach tm (init cs ss) sb /\
+  (exists e, nth_error es j = Some e /\ rv_step tm e sb = None).
+Proof.
+  intro E. destruct (rv_run_bad_prefix _ _ _ _ _ _ E) as [_ P]. rewrite Nat.sub_0_r in P.
+  split; [exact P|]. split; [eapply rv_run_reach; [apply reach_refl|exact P]|].
+  destruct (rv_run_bad_event _ _ _ _ _ _ E) as (e & N & X). rewrite Nat.sub_0_r in N. eauto.
+Qed.
+
+(* ---- the reset guard ---- *)
+(* the guarded variant IS the faithful model: every theorem about [reach] speaks of it *)
+Lemma rg_step_guarded tm l s : rg_step false tm l s = step_fn true tm l s.
+Proof. destruct l; reflexivity. Qed.
+
+Lemma rg_run_guarded tm ls : forall s, rg_run false tm ls s = run true tm ls s.
+Proof.
+  induction ls as [|l ls IH]; intro s; cbn [rg_run run]; [reflexivity|].
+  rewrite rg_step_guarded. destruct (step_fn true tm l s); [apply IH|reflexivity].
+Qed.
+
+(* the current source resets with CompareAndSwap(expected, standby): said by the constant
+   regenerated from resetToStandby and, independently, by the generated skeleton *)
+Definition rg_reset_op (k : skel) : option aop :=
+  match find (fun p => String.eqb (fst p) "resetToStandby") k with
+  | Some (_, SkIf (SkAtomic v op :: _) _ _ :: _) => if String.eqb v "relayStatus" then Some op else None
+  | _ => None
+  end.
+Definition rg_unguarded (k : skel) : bool := match rg_reset_op k with Some ACas => false | _ => true end.
+
+Lemma reset_guard_ok : rg_current = false /\ rg_unguarded Skel_relay.relay_skel = rg_current.
+Proof. split; reflexivity. Qed.
+
+Lemma conserved_O_b_false si s : conserved_O_b si s = false -> ~ conserved_O si s.
+Proof.
+  unfold conserved_O_b, conserved_O. intros H (A & B & C). apply andb_false_iff in H.
+  destruct H as [H|H]; [apply andb_false_iff in H; destruct H as [H|H]|]; apply list_eqb_false in H; contradiction.
+Qed.
+
+(* server chunks: trigger [9], end marker [7], second trigger [9], [8], [6]; one client chunk
+   [7] (an end marker).  First transfer confirmed; In reads [7] while transferring, sends it
+   and is delayed in front of its reset; the server's end marker resets the relay; the second
+   trigger makes it handshaking and [8] is parked; only now In's stale reset runs.  Without
+   the expected-state guard the relay is back in standby with [8] parked and a worker alive,
+   and [6] overtakes [8]. *)
+Definition reset_guard_witness : list label :=
+  [ LOutRead; LOutLoad; LOutDetect [9] true; LOutStoreH; LOutGo; LOutSend;
+    LHsAct 0 RdOk; LHsSendAct [101] true; LHsCfg 0 RdOk; LHsSendCfg [102];
+    LHsLock; LHsPopI; LHsPopO; LHsDone; LTlUnlock;
+    LInRead; LInLoad; LInSend;
+    LOutRead; LOutLoad; LOutBypass; LOutEnd true;
+    LOutRead; LOutLoad; LOutDetect [9] true; LOutStoreH; LOutGo; LOutSend;
+    LOutRead; LOutLoad; LOutLock; LOutReload; LOutAdd; LOutUnlockP;
+    LInEnd true;
+    LOutRead; LOutLoad; LOutDetect [6] false; LOutSend ].
+
+Theorem reset_guard_needed :
+  exists cs ss sched s, rg_run true false sched (init cs ss) = Some s /\ ~ conserved_O (concat ss) s
+    /\ clog s = [9; 102; 7; 9; 6] /\ flat (obr s) (obq s) = [8] /\ st s = StS /\ rg_stranded s = true.
+Proof.
+  exists [[7]], [[9]; [7]; [9]; [8]; [6]], reset_guard_witness.
+  eexists. split; [vm_compute; reflexivity|]. split; [|repeat split].
+  apply conserved_O_b_false. vm_compute. reflexivity.
+Qed.
+
+(* with the guard the same history up to and including the stale reset leaves the relay
+   handshaking with [8] parked for the worker to flush; the last four steps are then no path
+   (Out parks [6] behind [8] instead of forwarding it) *)
+Lemma reset_guard_witness_guarded :
+  (exists s, rg_run false false (firstn 35 reset_guard_witness) (init [[7]] [[9]; [7]; [9]; [8]; [6]]) = Some s
+     /\ st s = StH /\ rg_bad [7] [9; 7; 9; 8; 6] s = false) /\
+  rg_run false false reset_guard_witness (init [[7]] [[9]; [7]; [9]; [8]; [6]]) = None.
+Proof. split; [eexists; split; [vm_compute; reflexivity|split; reflexivity]|vm_compute; reflexivity]. Qed.
